@@ -2,7 +2,7 @@
    L0 = Staged.v (reference: stack of staging levels over an ordered map),
    L1 = VLog.v (key table + append-only value log with old links: the mechanism shared by ART and RBT). *)
 From Verif Require Import MemBuf.Model MemBuf.Art MemBuf.ProofsArt MemBuf.ProofsArtIns MemBuf.ProofsArtIns2
-  MemBuf.ProofsArtMap MemBuf.ProofsArtL1 MemBuf.Batched MemBuf.ProofsBatched MemBuf.ProofsBatchedL0 MemBuf.ProofsSeq MemBuf.BatchedUse MemBuf.ProofsKMap MemBuf.ProofsLog MemBuf.ProofsSim MemBuf.ProofsObs
+  MemBuf.ProofsArtMap MemBuf.ProofsArtL1 MemBuf.Batched MemBuf.ProofsBatched MemBuf.ProofsBatchedL0 MemBuf.ProofsSeq MemBuf.BatchedUse MemBuf.FlagPreds MemBuf.ProofsFlagDom MemBuf.ProofsKMap MemBuf.ProofsLog MemBuf.ProofsSim MemBuf.ProofsObs
   MemBuf.ProofsSet MemBuf.ProofsRevert MemBuf.ProofsStep MemBuf.ProofsProps.
 
 (* 1. Refinement.  Over ALL operation sequences — mutators and observers, valid and invalid handles /
@@ -319,6 +319,45 @@ Example seq_nonvacuous :
   wseq1 (fst (step1 s OCheckpoint)) = wseq1 s /\
   sseq1 (fst (step1 s (ORelease 1%nat))) <> sseq1 s.
 Proof. vm_compute. repeat split; discriminate. Qed.
+
+(* 10. Key flags: the readers KeyFlags.HasXxx (what 2PC, the lock path and the assertions consume) against the
+   writers FlagsOp.  The domain is the 14-bit words; it is closed, and every word the buffer ever stores is in it
+   (so the word can share a uint16 with ART's bit 15 and RBT's bits 14/15). *)
+Theorem C08_flags_domain_closed :
+  forall f o, (f < flag_limit)%N -> (apply_flag_op f o < flag_limit)%N /\ (and_persistent f < flag_limit)%N.
+Proof. intros f o H. split; [apply apply_op_closed|apply and_persistent_closed]; exact H. Qed.
+Print Assumptions C08_flags_domain_closed.
+
+Theorem C08_flags_stored_in_domain :
+  forall ops k f, kfind k (kf0 (exec0 init0 ops)) = Some f -> (f < flag_limit)%N.
+Proof. intros ops k f H. eapply dom_find; [apply (exec0_dom ops init0); exact (Forall_nil _)|exact H]. Qed.
+Print Assumptions C08_flags_stored_in_domain.
+
+(* every Set makes its reader true, every Del / opposite Set makes it false (all 22 ops, every word) *)
+Theorem C08_flags_set_del_laws : forall f, (f < flag_limit)%N -> set_del_b f = true.
+Proof. exact (for_all_words _ set_del_all). Qed.
+Print Assumptions C08_flags_set_del_laws.
+
+(* which flags survive an undo: the four lock readers keep their value, every other reader is false afterwards *)
+Theorem C08_flags_persistent_readers : forall f, (f < flag_limit)%N -> persistent_b f = true.
+Proof. exact (for_all_words _ persistent_all). Qed.
+Print Assumptions C08_flags_persistent_readers.
+
+(* an op changes nothing outside its own group of bits *)
+Theorem C08_flags_frame :
+  forall f o, (f < flag_limit)%N -> N.ldiff (apply_flag_op f o) (group o) = N.ldiff f (group o).
+Proof.
+  intros f o H. pose proof (for_all_words _ frame_all f H) as F. unfold frame_b in F. rewrite forallb_forall in F.
+  apply N.eqb_eq. apply F. apply all_ops_complete.
+Qed.
+Print Assumptions C08_flags_frame.
+
+Example flags_readers_example :
+  let f := apply_flag_ops 0 [SetKeyLocked; SetKeyLockedInShareMode; SetPresumeKeyNotExists; SetAssertExist] in
+  HasLocked f = true /\ HasPresumeKeyNotExists f = true /\ HasAssertExist f = true /\
+  HasLocked (and_persistent f) = true /\ HasLockedInShareMode (and_persistent f) = true /\
+  HasPresumeKeyNotExists (and_persistent f) = false /\ HasAssertExist (and_persistent f) = false.
+Proof. vm_compute. repeat split. Qed.
 
 (* ---- non-vacuity ---- *)
 (* a sequence with stages, checkpoints, reverts, tombstones, flags *)
